@@ -19,6 +19,7 @@ type vfVecOp struct {
 	K   int       `json:"k,omitempty"`
 	Thr float32   `json:"thr,omitempty"`
 	IDs []uint32  `json:"ids,omitempty"`
+	NP  int       `json:"nprobes,omitempty"`
 }
 
 type vfC01Case struct {
